@@ -13,6 +13,7 @@
 import DateutilVerif.Base.Wire
 import DateutilVerif.Model.RelativeDelta
 import DateutilVerif.Spec.RelativeDelta
+import DateutilVerif.Generated.RDOps
 
 namespace Ops.RelativeDelta
 open Wire RDM
@@ -145,7 +146,111 @@ partial def evalRPN (toks : List String) (stack : List RD) : Option (Py.R RD) :=
     | _, _, _, _ => none
   | _ => none
 
+/-- the RPN evaluator over the TRANSLATED constructor / operators (Generated/RDOps.lean) -/
+partial def evalRPNGen (toks : List String) (stack : List RD) : Option (Py.R RD) :=
+  let step (r : Py.R RD) (rest : List String) (st : List RD) : Option (Py.R RD) :=
+    match r with
+    | .error e => some (.error e)
+    | .ok v => evalRPNGen rest (v :: st)
+  match toks with
+  | [] => match stack with
+    | [r] => some (.ok r)
+    | _ => none
+  | "K" :: rest =>
+    match parseKw? (rest.take 19) with
+    | none => none
+    | some kw => step (Gen.initKw kw) (rest.drop 19) stack
+  | "R" :: rest =>
+    match parseRD? (rest.take 18) with
+    | none => none
+    | some r => evalRPNGen (rest.drop 18) (r :: stack)
+  | "add" :: rest => match stack with
+    | b :: a :: st => step (Gen.addRd a b) rest st
+    | _ => none
+  | "sub" :: rest => match stack with
+    | b :: a :: st => step (Gen.subRd a b) rest st
+    | _ => none
+  | "neg" :: rest => match stack with
+    | a :: st => step (Gen.neg a) rest st
+    | _ => none
+  | "abs" :: rest => match stack with
+    | a :: st => step (Gen.abs a) rest st
+    | _ => none
+  | "mul" :: k :: rest => match stack, k.toInt? with
+    | a :: st, some k' => step (Gen.mulInt a k') rest st
+    | _, _ => none
+  | "td" :: d :: s :: u :: rest => match stack, d.toInt?, s.toInt?, u.toInt? with
+    | a :: st, some d', some s', some u' => step (Gen.addTd a d' s' u') rest st
+    | _, _, _, _ => none
+  | _ => none
+
+/-- the utcoffset table of `rd.diffo` / `rdgen.diffo` -/
+def offOf (a b : Temporal) (rest : List Int) : Option (Nat → DT → Int) :=
+  match rest with
+  | offA :: ks =>
+    let zoneOf : Kind → Nat := fun k => match k with | .aware z _ => z | _ => 0
+    let tab := offTable (zoneOf b.kind) b.t ks
+    some (fun z t =>
+      match tab.find? (fun e => e.1 = z ∧ e.2.1 = t) with
+      | some e => e.2.2
+      | none => offA)
+  | _ => none
+
+def handleGen (op : String) (args : List String) : Option String :=
+  match op with
+  | "rdgen.mk" => (parseKw? args).map (fun k => Py.showR showRD (Gen.initKw k))
+  | "rdgen.expr" => (evalRPNGen args []).map (Py.showR showRD)
+  | "rdgen.bool" => (parseRD? args).map (fun d => Py.showR showBool (Gen.bool d))
+  | "rdgen.hash" => (parseRD? args).map (fun d => Py.showR showHash (Gen.hashKey d))
+  | "rdgen.eq" => do
+      let a ← parseRD? (args.take 18)
+      let b ← parseRD? (args.drop 18)
+      pure (match Gen.eq a b, Gen.hashKey a, Gen.hashKey b with
+        | .ok e, .ok ha, .ok hb => s!"ok {showBool e} {showBool (decide (ha = hb))}"
+        | .error e, _, _ => "err " ++ e.name
+        | _, .error e, _ => "err " ++ e.name
+        | _, _, .error e => "err " ++ e.name)
+  | "rdgen.add" => do
+      let d ← parseRD? (args.take 18)
+      let x ← parseTemporal? (args.drop 18)
+      pure (Py.showR showTemporal (Gen.addDt d x))
+  | "rdgen.radd" => do
+      let d ← parseRD? (args.take 18)
+      let x ← parseTemporal? (args.drop 18)
+      pure (Py.showR showTemporal (Gen.raddDt d x))
+  | "rdgen.rsub" => do
+      let d ← parseRD? (args.take 18)
+      let x ← parseTemporal? (args.drop 18)
+      pure (Py.showR showTemporal (Gen.rsubDt d x))
+  | "rdgen.diff" => do
+      let a ← parseTemporal? (args.take 8)
+      let b ← parseTemporal? (args.drop 8)
+      pure (match Gen.initDiff (fun _ _ => 0) 2 a b with
+        | .error .NotImplemented => "fuel"
+        | r => Py.showR showRD r)
+  | "rdgen.diffn" => match args with
+    | n :: rest => do
+      let n' ← n.toNat?
+      let a ← parseTemporal? (rest.take 8)
+      let b ← parseTemporal? (rest.drop 8)
+      pure (match Gen.initDiff (fun _ _ => 0) n' a b with
+        | .error .NotImplemented => "fuel"
+        | r => Py.showR showRD r)
+    | _ => none
+  | "rdgen.diffo" => do
+      let a ← parseTemporal? (args.take 8)
+      let b ← parseTemporal? ((args.drop 8).take 8)
+      let rest ← ((args.drop 16).mapM parseInt?)
+      let off ← offOf a b rest
+      pure (match Gen.initDiff off 2 a b with
+        | .error .NotImplemented => "fuel"
+        | r => Py.showR showRD r)
+  | _ => none
+
 def handle (op : String) (args : List String) : Option String :=
+  match handleGen op args with
+  | some r => some r
+  | none =>
   match op with
   | "rd.fix" => (parseRD? args).map (fun d => "ok " ++ showRD (Gen.fix d))
   | "rd.setmonths" => match args.mapM parseInt? with
